@@ -94,10 +94,10 @@ func init() {
 		var buf bytes.Buffer
 		w, err := saltpack.NewArmor62EncoderStream(&buf, t, brand)
 		if err == nil {
-			for _, p := range splitPieces(h.rng, payload) {
-				w.Write(p)
+			err = writePieces(w, splitPieces(h.rng, payload))
+			if err == nil {
+				err = w.Close()
 			}
-			err = w.Close()
 		}
 		if err != nil || buf.String() != got {
 			fs = append(fs, Failure{Kind: "oracle", Key: "armor-stream-differs", Desc: fmt.Sprintf("streaming armor encoder output differs from Armor62Seal (err %v)", err)})
